@@ -107,16 +107,30 @@ def _clean_journal(db):
             os.remove(db + suffix)
         except FileNotFoundError:
             pass
+    if os.path.isdir(os.path.dirname(db)):
+        for suffix in _sidecars_of(db):
+            os.remove(db + suffix)
+
+
+def _sidecars_of(path):
+    """Every file that sits next to `path` and is named after it (journal, WAL,
+    shared memory, or anything a changed tree may keep there)."""
+    directory, base = os.path.dirname(path), os.path.basename(path)
+    out = []
+    for name in sorted(os.listdir(directory)):
+        if name.startswith(base) and name != base and os.path.isfile(os.path.join(directory, name)):
+            out.append(name[len(base):])
+    return out
 
 
 def _copy_with_sidecars(src, dst):
-    """Byte copy of a dataset file together with whatever journal / WAL files
-    sit next to it (a hot journal, an inert one, or a WAL a changed tree may use)."""
-    _clean_journal(dst)
+    """Byte copy of a dataset file together with whatever sits next to it under
+    its name (a hot journal, an inert one, a WAL, a sidecar a changed tree uses)."""
+    for suffix in _sidecars_of(dst):
+        os.remove(dst + suffix)
     shutil.copyfile(src, dst)
-    for suffix in SIDECARS:
-        if os.path.exists(src + suffix):
-            shutil.copyfile(src + suffix, dst + suffix)
+    for suffix in _sidecars_of(src):
+        shutil.copyfile(src + suffix, dst + suffix)
 
 
 class Exec:
@@ -175,20 +189,45 @@ def execute(db, argv, knobs, fault, directory, record=False, count_sys=False):
     needs_fork = bool(fault) and (
         (layer == "C" and fault["kind"].startswith("kill")) or (layer == "A" and fault.get("kind") == "kill"))
     peer = None
+    lock_hook = None
     if layer == "L":
         peer = sqlseam.plain_connect(db)
-        try:
-            if fault["lock"] == "shared":
-                cur = peer.execute("SELECT name FROM sqlite_master")
-                cur.fetchone()
-                ex.lock_held = cur
-            elif fault["lock"] == "reserved":
-                peer.execute("BEGIN IMMEDIATE")
-            else:
-                peer.execute("BEGIN EXCLUSIVE")
-        except Exception:  # pylint: disable=broad-except
-            peer.close()
-            peer = None
+
+        def take():
+            try:
+                if fault["lock"] == "shared":
+                    cur = peer.execute("SELECT name FROM sqlite_master")
+                    cur.fetchone()
+                    ex.lock_held = cur
+                elif fault["lock"] == "reserved":
+                    peer.execute("BEGIN IMMEDIATE")
+                else:
+                    peer.execute("BEGIN EXCLUSIVE")
+                return True
+            except Exception:  # pylint: disable=broad-except
+                return False
+
+        def release():
+            try:
+                if ex.lock_held is not None:
+                    ex.lock_held.close()
+                    ex.lock_held = None
+                peer.rollback()
+            except Exception:  # pylint: disable=broad-except
+                pass
+
+        acquire_at, release_at = fault.get("acquire_at"), fault.get("release_at")
+        if acquire_at is None:
+            if not take():
+                peer.close()
+                peer = None
+        if peer is not None and (acquire_at is not None or release_at is not None):
+            def lock_hook(_kind, _sql, index):
+                # the peer acts between two statements of the step
+                if acquire_at is not None and index == acquire_at:
+                    ex.fired = take() or ex.fired
+                if release_at is not None and index == release_at:
+                    release()
     shim = sysfault.available()
     try:
         if needs_fork:
@@ -234,6 +273,8 @@ def execute(db, argv, knobs, fault, directory, record=False, count_sys=False):
                 ex.fired = bool(info.get("fired"))
         else:
             plan = sqlseam.set_plan(_make_plan(knobs, fault, record))
+            if lock_hook is not None:
+                plan.on_call = lock_hook
             armed = False
             if shim and (count_sys or layer == "C"):
                 if layer == "C":
@@ -257,7 +298,7 @@ def execute(db, argv, knobs, fault, directory, record=False, count_sys=False):
             if layer in ("A", "B"):
                 ex.fired = plan.fired is not None
             elif layer == "L":
-                ex.fired = peer is not None
+                ex.fired = (peer is not None) if fault.get("acquire_at") is None else ex.fired
     finally:
         sqlseam.set_plan(None)
         if peer is not None:
@@ -499,7 +540,15 @@ class Trial:
             if plan["kind"].startswith("kill"):
                 plan["signal"] = rng.choice(["KILL", "KILL", "KILL", "TERM", "INT", "HUP"])
             return plan
-        return {"layer": "L", "lock": rng.choice(LAYER_KINDS["L"])}
+        plan = {"layer": "L", "lock": rng.choice(LAYER_KINDS["L"])}
+        n = twin_ex.calls
+        timing = rng.choice(["whole", "whole", "released", "late"]) if n > 1 else "whole"
+        if timing == "released":
+            plan["release_at"] = rng.randrange(1, n)           # contention that goes away mid-step
+        elif timing == "late":
+            plan["lock"] = "shared"
+            plan["acquire_at"] = rng.randrange(1, n)           # a reader arrives mid-step: BUSY at COMMIT
+        return plan
 
     # -- one op ---------------------------------------------------------------
     def do_op(self, op, argv, fault="draw", expect=None, defer=None, twin=None):
@@ -668,6 +717,10 @@ class Trial:
         else:
             layer = fault["layer"]
             kind = fault.get("kind") or fault.get("lock") or "interrupt"
+            if layer == "L" and fault.get("release_at") is not None:
+                kind += "_released_midstep"
+            if layer == "L" and fault.get("acquire_at") is not None:
+                kind += "_acquired_midstep"
             if str(kind).startswith("kill") and fault.get("signal", "KILL") != "KILL":
                 kind = "%s_SIG%s" % (kind, fault["signal"])
             st["fault_configured_%s_%s" % (layer, kind)] += 1
@@ -934,6 +987,13 @@ def sweep(seed, directory, step, prefix_steps, spec=None, knobs=None, layers=("A
     if "L" in layers:
         for lock in LAYER_KINDS["L"]:
             plans.append({"layer": "L", "lock": lock})
+            if twin_ex.calls > 2:
+                plans.append({"layer": "L", "lock": lock, "release_at": 1})
+                plans.append({"layer": "L", "lock": lock, "release_at": twin_ex.calls // 2})
+                plans.append({"layer": "L", "lock": lock, "release_at": twin_ex.calls - 1})
+        if twin_ex.calls > 2:
+            for k in (1, twin_ex.calls // 2, twin_ex.calls - 1):
+                plans.append({"layer": "L", "lock": "shared", "acquire_at": k})
     if max_positions and len(plans) > max_positions:
         plans = rng.sample(plans, max_positions)
     if shard:
